@@ -331,3 +331,44 @@ CHECKS = [
              'against scipy). Spectra/times/bands sampled.'},
 ]
 NOT_APPLICABLE = []
+
+# Monitors of the same clause at the Simulation boundary (DESIGN.md 7.2, 9.4)
+SIM_LEVEL = {
+    'C01': 'Simulations under random histories of compute / misfit / gradient '
+           '/ jvec / clean (tol_gradient != tol, in memory and file based): '
+           'every stored forward field reported converged is checked with the '
+           'same oracle against the forward tolerance the user requested.',
+    'C02': 'A second operator (other frequency or Laplace value) built from '
+           'the same Model object is compared with the reference as well, and '
+           'the model must be left untouched.',
+    'C06': 'Families with homogeneous mu_r = 2 and 0.5 are part of the '
+           'calibrated set.',
+    'C07': 'The base simulation runs in memory or file based, with default or '
+           'user-named frequencies, and in 40 % of the multi-pair cases gets '
+           'the observations of one source-frequency pair only after a first '
+           'gradient (written in place, then clean).',
+    'C09': 'For Simulations with receivers of mixed kind, order and '
+           'relative/absolute position, the residual source field that is '
+           'back-propagated pairs with random probe fields exactly as the '
+           'weighted sum of the receiver samplings.',
+    'C11': 'Two thirds of the problems use a relaxed tol_gradient; a second '
+           'forward run after gradient and J v is a fourth phase of every '
+           'configuration.',
+    'C12': 'Operations include replacing the model and replacing the observed '
+           'data in place (other values, other missing-data pattern), each '
+           'followed by clean.',
+    'C14': 'Layered-mode Simulations: derived options (default averaging '
+           'radius) identical and data equal, up to a measured conditioning '
+           'probe, across the six mappings.',
+    'C15': 'Simulation.gradient with per-pair computational grids of equal '
+           'shape equals the sum over pairs of the reference transpose of '
+           'that pair applied to the cell-averaged field product.',
+    'C16': 'At the user level (repr / html / print_grid_info / get_grid '
+           'first) the sea surface of every mesh handed over is a node or a '
+           'warning has reached the caller.',
+    'C17': 'Computed simulations are saved in forward, misfit and gradient '
+           'state, with tol_gradient different from tol.',
+}
+for _c in CHECKS:
+    if _c['id'] in SIM_LEVEL:
+        _c['text'] = _c['text'] + ' ' + SIM_LEVEL[_c['id']]
